@@ -701,9 +701,11 @@ func (m *MapPollard) placeEmptyRoot(prevRootPos uint64) error {
 				m.Nodes.Delete(curPos)
 
 				_, cached := m.CachedLeaves.Get(v.Hash)
+				if cached {
+					m.CachedLeaves.Put(v.Hash, pos)
+				}
 				if cached || m.Full {
 					v.Remember = true
-					m.CachedLeaves.Put(v.Hash, pos)
 				}
 				m.Nodes.Put(pos, v)
 			}
@@ -747,8 +749,10 @@ func (m *MapPollard) undoDeletion(proof Proof, hashes []Hash) error {
 		v, found := m.Nodes.Get(sib)
 		if found {
 			_, cached := m.CachedLeaves.Get(v.Hash)
-			if cached || m.Full {
+			if cached {
 				m.CachedLeaves.Put(v.Hash, prevPos)
+			}
+			if cached || m.Full {
 				v.Remember = true
 			}
 
@@ -803,22 +807,26 @@ func (m *MapPollard) undoDeletion(proof Proof, hashes []Hash) error {
 		if m.Full {
 			remember = true
 		}
+		isTarget := false
 		for _, target := range proof.Targets {
 			if TreeRows(m.NumLeaves) != m.TotalRows {
 				translated := translatePos(target, TreeRows(m.NumLeaves), m.TotalRows)
 				if pos == translated {
 					remember = true
+					isTarget = true
 				}
 			} else {
 				if pos == target {
 					remember = true
+					isTarget = true
 				}
 			}
 		}
 		m.Nodes.Put(pos, Leaf{Hash: newhnp.hashes[i], Remember: remember})
 
-		// Only add it to the cached leaves if remember is true.
-		if remember {
+		// Only add it to the cached leaves if it's a target. The other
+		// positions are intermediate nodes, not leaves.
+		if isTarget {
 			m.CachedLeaves.Put(newhnp.hashes[i], pos)
 		}
 	}
@@ -1168,14 +1176,18 @@ func (m *MapPollard) ingest(delHashes []Hash, proof Proof) error {
 		if m.Full {
 			remember = true
 		}
+		isTarget := false
 		for i := range hnp.positions {
 			if hnp.positions[i] == pos {
 				remember = true
+				isTarget = true
 				break
 			}
 		}
 		m.Nodes.Put(pos, Leaf{Hash: intermediate.hashes[i], Remember: remember})
-		if remember {
+
+		// Only the targets are leaves. The other positions are intermediate nodes.
+		if isTarget {
 			m.CachedLeaves.Put(intermediate.hashes[i], pos)
 		}
 	}
